@@ -190,7 +190,13 @@ async def run_history(hist: dict, loop) -> dict:
         elif kind == "take":
             c = o["c"]
             t = asyncio.ensure_future(api(w.consumers[c].consume()))
-            await w.settle()
+            for _ in range(40):
+                # consume() may first dead-letter expired buffered messages (one method each): give it loop iterations for as
+                # long as it makes progress; no virtual time passes
+                n_log = len(w.srv.log)
+                await w.settle()
+                if t.done() or len(w.srv.log) == n_log:
+                    break
             got = None
             if t.done():
                 got = t.result()
